@@ -162,6 +162,8 @@ pub enum Tamper {
     SDouble,
     SOtherIdentity,
     SOffCurve,
+    /// S = point #i of sm9util::g1_near_curve_points (off the curve, neighbouring equation, boundary abscissa)
+    SNearCurve(u16),
     SZeroZero,
     SInfinity,
     /// the same S in another Jacobian representation — NOT an alteration
@@ -268,6 +270,14 @@ fn check_tamper(c: &TCase) -> CaseResult {
             s_ref = None;
             class = "S-off-curve";
         }
+        Tamper::SNearCurve(i) => {
+            let pts = g1_near_curve_points();
+            let (_, x, y) = &pts[*i as usize % pts.len()];
+            let q = Some((r9::fp(x), r9::fp(y)));
+            s_lib = lib_g1(&q, &BigUint::one());
+            s_ref = None;
+            class = "S-off-curve";
+        }
         Tamper::SZeroZero => {
             s_lib = Point { x: [0; 4], y: [0; 4], z: to_mont(&BigUint::one()) };
             s_ref = None;
@@ -341,6 +351,7 @@ pub fn tamper_strategy() -> impl Strategy<Value = Tamper> {
         1 => Just(Tamper::SDouble),
         1 => Just(Tamper::SOtherIdentity),
         1 => Just(Tamper::SOffCurve),
+        1 => any::<u16>().prop_map(Tamper::SNearCurve),
         1 => Just(Tamper::SZeroZero),
         1 => Just(Tamper::SInfinity),
         1 => any::<u64>().prop_map(Tamper::SSameOtherZ),
@@ -471,6 +482,17 @@ pub fn run(ctx: &Ctx) {
             }
             for t in [Tamper::None, Tamper::HPlusN, Tamper::SSameOtherZ(7), Tamper::SNeg, Tamper::SPlusP1, Tamper::SDouble, Tamper::SOtherIdentity, Tamper::SOffCurve, Tamper::SZeroZero, Tamper::SInfinity, Tamper::OtherMessage, Tamper::OtherIdentity, Tamper::OtherMasterKey] {
                 v.push(TCase { base: b.clone(), tamper: t });
+            }
+        }
+        v
+    }, check_tamper);
+
+    let nc_step = ctx.tier.pick(3usize, 1usize);
+    ctx.listed("s_near_curve_points", "S replaced by the points of the G1 near-curve family (off y^2 = x^3 + 5, on a neighbouring equation with one constant changed, boundary abscissas; every 3rd in the quick tier): verification must refuse", move || {
+        let mut v = Vec::new();
+        for b in fixed_bases(seed ^ 0x9a, 1) {
+            for i in (0..g1_near_curve_points().len()).step_by(nc_step) {
+                v.push(TCase { base: b.clone(), tamper: Tamper::SNearCurve(i as u16) });
             }
         }
         v
